@@ -64,9 +64,19 @@ def make_cases(tier, rng):
                     seq.append("(handle_closed %d)" % t)
             elif nt:
                 seq.append("(run %d)" % rng.below(nt))
-        add("local" if rng.chance(1, 2) else "threads", seq, "multi-task")
+        # one case in five speaks microseconds: every delay and period is then below one millisecond
+        add(rng.choice(["local", "threads", "local", "threads", "local_us"]), seq, "multi-task")
+    # the repeating tasks behind interval (RepeatTask::new) and interval_at (RepeatTask::starting_now behind the initial delay,
+    # shorter than, equal to and longer than the period), also in microseconds
+    import timedcheck
+    for form in (("local", "threads"), ("local_us",)):
+        for c in timedcheck.op_cases([("(interval 5)", 5), ("(interval_at 3 5)", 5), ("(interval_at 5 5)", 5), ("(interval_at 7 5)", 5)], tier, rng,
+                                     forms=form, exh_len=4, nrand=800, finish=True, has_src=False):
+            n += 1
+            cases.append(("k%d" % n, c[1].replace("(case %s " % c[0], "(case k%d " % n), {"class": "repeating-source", "len": c[2]["len"]}))
     # a body running on a pool thread while its handle is unsubscribed (real threads: C10_cancel_waits_for_running_poll)
     cases.append(("race1", "(case race1 sched_race %d)" % (10 if tier == "quick" else 60), {"class": "thread-pool", "len": 0}))
+    cases.append(("race2", "(case race2 unsub_race %d)" % (10 if tier == "quick" else 60), {"class": "thread-pool", "len": 0}))
     return cases
 
 
@@ -89,7 +99,10 @@ def run(tier, seed, replay=None):
                  "period 3 with/without delay declining at 0/1/2, subscribing OnceTask): for each kind every sequence of <= %d labels over "
                  "{poll the task, advance the clock by 2/3/5, unsubscribe the handle, is_closed()}; plus random interleavings of up to four "
                  "tasks; observation = per label: which task function ran with which sequence number at which virtual time, answers of "
-                 "is_closed(), unsubscription of the subscription produced by a subscribing task" % (6 if tier == "quick" else 8))
+                 "is_closed(), unsubscription of the subscription produced by a subscribing task; one multi-task case in five in microseconds "
+                 "(every delay below a millisecond); the repeating tasks of interval and interval_at (initial delay <, =, > the period) under "
+                 "every label sequence <= 4 and random ones; a subscribing task running on a pool thread while its handle is unsubscribed: "
+                 "nothing is delivered afterwards, neither by the task nor by the subscription it produced" % (6 if tier == "quick" else 8))
     rep.assumptions = ["the executor is represented by explicit poll labels on the hook scheduler (any task may be polled at any time); "
                        "the real LocalPool / ThreadPool only choose among these polls",
                        "virtual timer installed through NEW_TIMER_FN (the crate is built without the `timer` feature)"]
